@@ -280,6 +280,45 @@ class World (object):
     self.prev_reg = real
     return want, real, ok
 
+  def check_views (self, i, op, real):
+    """Every public view of the registry must show what items() shows (which check_registry compared
+    with the reference): iteration, len, membership by dpid and by connection, keys(), values(),
+    .dpids, iter_dpids(), [dpid], getConnection(dpid).  All are read after every step."""
+    nx = self.st.nexus; cd = nx.connections
+    slot = lambda c: self.slot_of.get(self.st.cons.index(c)) if c in self.st.cons else "?"
+    want_d = sorted(real); want_c = sorted(real.values(), key=repr)
+    views = []
+    def view (name, fn, want):
+      self.transitions += 1
+      try: got = fn()
+      except Exception as e: got = "raised %s: %s" % (type(e).__name__, e)
+      views.append((name, got, want))
+    view("getConnection", lambda: {d: (lambda c: None if c is None else slot(c))(nx.getConnection(d)) for d in DPIDS_ALL},
+         {d: real.get(d) for d in DPIDS_ALL})
+    view("getitem", lambda: {d: (slot(cd[d]) if d in real else "KeyError") for d in DPIDS_ALL} if all(self._getitem_ok(cd, d, d in real) for d in DPIDS_ALL) else "wrong KeyError behaviour",
+         {d: (real[d] if d in real else "KeyError") for d in DPIDS_ALL})
+    view("contains-dpid", lambda: sorted(d for d in DPIDS_ALL if d in cd), want_d)
+    view("contains-connection", lambda: sorted((s for s, k in self.cidx.items() if self.st.cons[k] in cd), key=repr), want_c)
+    view("keys", lambda: sorted(cd.keys()), want_d)
+    view("values", lambda: sorted((slot(c) for c in cd.values()), key=repr), want_c)
+    view("iteration", lambda: sorted((slot(c) for c in cd), key=repr), want_c)
+    view("len", lambda: len(cd), len(real))
+    view("dpids", lambda: sorted(cd.dpids), want_d)
+    view("iter_dpids", lambda: sorted(cd.iter_dpids()), want_d)
+    for name, got, want in views:
+      if got != want:
+        # one defect, one key: only the first disagreeing view is reported
+        self.fail("registry:view-disagrees:%s" % name,
+                  "after %s(%d): nexus.connections %s shows %r but the registry's items() (and the reference) say %r"
+                  % (op, i, name, got, want))
+        break
+    return [(n, g) for n, g, w in views if g != w]
+
+  @staticmethod
+  def _getitem_ok (cd, d, present):
+    try: cd[d]; return present
+    except KeyError: return not present
+
   def probe (self, want, ok):
     """sendToDPID for every datapath id; where did the bytes go?"""
     res = []
@@ -309,6 +348,7 @@ class World (object):
       self.check_events(j, "nexus", self.nlog[j])
       self.check_events(j, "connection", self.clog[j])
     want, real, ok = self.check_registry(i, op)
+    self.check_views(i, op, real)
     pr = self.probe(want, ok)
     self.lines.append("  events %s; registry %r; sendToDPID %r" % (ev, real, pr))
     for k, what in self.bad[self.shown:]:
@@ -604,7 +644,9 @@ def run (cfg):
               "[hello][features reply + port-status][barrier reply | barrier-unsupported error][port-status]; (d) every merge order of the three handshake "
               "deliveries of 2 (20 orders) and 3 (1680 orders) connections of ONE datapath id accepted in index order, each followed by every sequence of <=%d "
               "closes (covers a connection accepted first completing its handshake last). After every operation: events on nexus and "
-              "Connection, registry and a sendToDPID probe per datapath id are compared with the reference life-cycle. distinct = (script shape, loss, "
+              "Connection, the registry (items()) and a sendToDPID probe per datapath id are compared with the reference life-cycle, and every other "
+              "registry view (getConnection, [dpid], membership by dpid and by connection, keys(), values(), iteration, len, .dpids, iter_dpids()) "
+              "is read and compared with items(). distinct = (script shape, loss, "
               "observation sequence) for (a)/(b), (last op, observation) for (c)"
               % (kmax, list(kinds), depth, " / ".join(str(r[0]) for r in roots), cfg.pick(1, 2)))
   rep.bound = dict(async_messages=kmax, async_kinds=list(kinds), bfs_depth=depth, connections=3, datapath_ids=2)
